@@ -50,7 +50,7 @@ type pcall struct {
 }
 
 type rig struct {
-	clock   *kit.Clock
+	clock   *stepClock
 	backend istorage.IAppStorage
 	cleanup func()
 	mu      sync.Mutex
@@ -154,7 +154,7 @@ type participant struct {
 type apiRet struct{ ctx context.Context }
 
 func newRig(backend string, np int) (*rig, error) {
-	r := &rig{clock: kit.NewClock(), pending: map[int64]*pcall{}, abort: make(chan struct{}), keyRaw: map[uint32][2][]byte{}, lastArm: map[int64]int64{}}
+	r := &rig{clock: newStepClock(), pending: map[int64]*pcall{}, abort: make(chan struct{}), keyRaw: map[uint32][2][]byte{}, lastArm: map[int64]int64{}}
 	r.clock.OnNewTimer = func(d time.Duration) {
 		gid := goid()
 		at := r.clock.Now().Sub(kit.Epoch).Nanoseconds() + d.Nanoseconds()
@@ -165,6 +165,11 @@ func newRig(backend string, np int) (*rig, error) {
 	st, cleanup, err := kit.NewBackend(backend, r.clock)
 	if err != nil {
 		return nil, err
+	}
+	if backend == "bbolt" { // its background cleaner arms its first timer asynchronously
+		for dl := time.Now().Add(5 * time.Second); r.clock.PendingTimers() == 0 && time.Now().Before(dl); {
+			time.Sleep(100 * time.Microsecond)
+		}
 	}
 	r.cleanup = cleanup
 	wrap := &kit.Wrap{Inner: st}
